@@ -242,7 +242,8 @@ func writeGroupIni(cmd *Command, group *Group, namespace string, writer io.Write
 		}
 
 		if comments && len(option.Description) != 0 {
-			fmt.Fprintf(writer, "; %s\n", option.Description)
+			// Every line of a multi-line description is a comment line
+			fmt.Fprintf(writer, "; %s\n", strings.Replace(option.Description, "\n", "\n; ", -1))
 		}
 
 		oname := optionIniName(option)
